@@ -319,7 +319,16 @@ func RunScenario(t *testing.T, rec *Recorder, sc *Scenario) {
 			}
 		}
 		if run.FreshProc {
-			runInFreshProcess(rec, sc, run, i)
+			r2 := *run
+			if run.SeedPrev && prevSeed != "" { // the printed seed, tried in a new process
+				r2.Flags = map[string]string{}
+				for k, v := range run.Flags {
+					r2.Flags[k] = v
+				}
+				r2.Flags["seed"] = prevSeed
+				r2.SeedPrev = false
+			}
+			runInFreshProcess(rec, sc, &r2, i)
 			continue
 		}
 		extra := map[string]string{}
